@@ -240,6 +240,9 @@ func (y *c10Sys) step(s *c10State, label string) (*c10Step, []c10Viol) {
 		cls += "!"
 	}
 	y.r.Class(cls + ":" + out)
+	if c10StepExt != nil {
+		c10StepExt(y, s, st)
+	}
 	if y.prop == "C11" {
 		vs = append(vs, y.c11Transition(s, st)...)
 	} else {
@@ -376,6 +379,10 @@ func (y *c10Sys) c11Transition(s *c10State, st *c10Step) []c10Viol {
 				}
 			}
 			y.r.Class("epoch:peer-left-pool")
+			if pre.Penalty[pn] > 0 && post.Penalty[pn] > pre.Penalty[pn] {
+				// a node punished again while the penalty of its earlier life is still held by the contract
+				y.r.Class("epoch:penalty-added-to-held-penalty")
+			}
 		}
 	}
 	if st.kind == "wd" || st.kind == "wd2" || st.kind == "wdl" {
@@ -573,6 +580,9 @@ func (o *c10Obs) feeSig() string {
 func (y *c10Sys) c10Check(s *c10State) []c10Viol {
 	var vs []c10Viol
 	o := s.o
+	if c10CheckExt != nil {
+		vs = append(vs, c10CheckExt(y, s)...)
+	}
 	owed, w := o.sumFee()
 	if w || owed > o.OngGov {
 		vs = append(vs, c10Viol{"C10:credits-exceed-governance-balance", fmt.Sprintf("credits %d (wrapped=%v) > ONG balance %d", owed, w, o.OngGov)})
@@ -757,6 +767,9 @@ func (y *c10Sys) menu(s *c10State) []string {
 	add(wide, "commit:any")
 	add(wide, "commit:cycle")
 	add(wide && s.ticks < c10MaxTk, "tick")
+	if c10MenuExt != nil {
+		ev = c10MenuExt(y, s, ev)
+	}
 	return ev
 }
 
@@ -782,9 +795,15 @@ func c10Scenarios(prop string, thorough bool) []c10Scenario {
 	// S7: an authorizer with unfrozen stake on two nodes and active stake on both besides (its total stake
 	// covers more than any one unfrozen record): the root for withdraw calls with several entries
 	s7 := cat(s2, "auth:A1:P8:500", "auth:A1:P9:500", "unauth:A1:P8:500", "unauth:A1:P9:500")
+	// S8: a node that has been blacklisted once (with authorizers), settled and whitelisted again; the penalty
+	// stake of its first life has NOT been transferred out: the root for registering and punishing the same node key again
+	s8 := cat(s4, "white:P8")
+	// S9: the second life of that node, registered again with an authorizer whose stake has been through a settlement
+	s9 := cat(s8, "reg:P8:10000", "max:P8:100000", "auth:A1:P8:500", "commit")
 	out := []c10Scenario{{"F/S0", "F", nil}, {"F/S1", "F", s1}, {"F/S2", "F", s2}, {"F/S5", "F", s5}, {"H/S6", "H", s6}}
 	if prop == "C11" {
 		out = append(out, c10Scenario{"F/S3", "F", s3}, c10Scenario{"F/S4", "F", s4}, c10Scenario{"F/S7", "F", s7})
+		out = append(out, c10Scenario{"F/S8", "F", s8}, c10Scenario{"F/S9", "F", s9})
 		out = append(out, c10Scenario{"U/S0", "U", nil}, c10Scenario{"U/S2", "U", s2})
 		// Z: the first settlement with any stake divides by a zero stake (see the
 		// report / C12); the scenario stays within one epoch
@@ -910,6 +929,16 @@ func (y *c10Sys) config(depth int) xs.Config {
 
 func (y *c10Sys) replay() bool { return y.isReplay }
 
+// extension points set by files that belong to one property only (nil otherwise):
+// more fixture names, more menu events, a class per step, more per-state invariants
+var (
+	c10FixExt   func(fx *c10Fix)
+	c10MenuExt  func(y *c10Sys, s *c10State, ev []string) []string // gets the menu, returns the final one
+	c10StepExt  func(y *c10Sys, s *c10State, st *c10Step)
+	c10CheckExt func(y *c10Sys, s *c10State) []c10Viol
+	c10PhaseExt func(y *c10Sys) []string // further explorations after the phases of c10Run; returns their descriptions
+)
+
 // ------------------------------------------------------------------ tests
 
 func c10Run(t *testing.T, prop, unit string) {
@@ -968,6 +997,9 @@ func c10Run(t *testing.T, prop, unit string) {
 		}
 		desc = append(desc, fmt.Sprintf("%s menu to depth %d", name, ph.depth))
 		r.Sample(map[string]interface{}{"phase": name, "scenario_roots": len(y.scens), "depth_after_root": ph.depth, "states_this_shard": st.States, "per_depth": st.PerDepth})
+	}
+	if c10PhaseExt != nil && !r.Expired() {
+		desc = append(desc, c10PhaseExt(y)...)
 	}
 	c10Describe(y, strings.Join(desc, " and "))
 }
